@@ -594,6 +594,7 @@ Proof.
     + intros _ Hi. destruct (akeys_In _ _ Hi) as [w1 Hi1].
       destruct (w_asq_k s HW f w1 Hi1) as [z [Hz [Hr _]]]. congruence.
     + intros _ Hi. apply unlink_keys in Hi. destruct Hi as [_ Hi]. contradiction.
+    + rewrite U1. congruence.
 Qed.
 
 Lemma base_s_core hand f x s :
@@ -627,6 +628,7 @@ Proof.
     + intros _ Hi. apply unlink_keys in Hi. destruct Hi as [_ Hi]. contradiction.
     + intros _ Hi. destruct (akeys_In _ _ Hi) as [w1 Hi1].
       destruct (w_arq_k s HW f w1 Hi1) as [z [Hz Hr]]. congruence.
+    + rewrite U1, U5, U4. apply (w_item s HW f x Hg).
 Qed.
 
 Lemma InvD_with_tn hand t s : InvD hand s -> InvD hand (with_tn t s).
@@ -725,4 +727,197 @@ Proof.
       clear - K2 C1 C2. destruct (is_waiting (f_state x)); cbn [b2n] in *; lia.
     + intros T. specialize (K3 T). change (nq (base_r f x s)) with (nq s). change (ncap (base_r f x s)) with (ncap s).
       clear - K3 C3 C4. lia.
+Qed.
+
+Lemma cancel_reg_send f x s :
+  Inv s -> getF f s = Some x -> f_reg x = true -> f_recv x = false ->
+  Inv (cancel_reg f x s) /\ cancel_post f x s (cancel_reg f x s).
+Proof.
+  intros H Hg Hreg Hrecv. destruct H as [HD [HW HK]].
+  unfold cancel_reg. rewrite Hreg, Hrecv.
+  change (setF f (set_reg false (if is_waiting (f_state x) then set_state Cancelled x else x)) s) with (setF f (unreg x) s).
+  change (with_asq (unlink f (asq (setF f (unreg x) s))) (setF f (unreg x) s)) with (base_s f x s).
+  destruct (base_s_core [] f x s HD HW Hg Hrecv) as [HDb HWb].
+  destruct (unreg_fields x) as (U1 & U2 & U3 & U4 & U5 & U6).
+  destruct (cnt4 f x (unreg x) s (base_s f x s) (w_fnd s HW) Hg eq_refl) as (C1 & C2 & C3 & C4).
+  ev_preds C1. ev_preds C2. ev_preds C3. ev_preds C4.
+  destruct HK as [K1 K2 K3]. fold (nq s) in K2, K3. fold (ncap s) in K3.
+  assert (Hpost0 : forall s', getF f s' = Some (unreg x) -> hs s' = hs s -> q s' = q s -> next s' = next s ->
+            recvd s' = recvd s -> acc s' = acc s -> back s' = back s -> dropped s' = dropped s -> dk s' = dk s ->
+            cap s' = cap s -> fx s' = fx s -> sc s' = sc s -> rc s' = rc s -> freed s' = freed s -> cancel_post f x s s').
+  { intros s' G. intros. unfold cancel_post. split; [exists (unreg x); repeat split; auto|]. repeat split; assumption. }
+  assert (Gb : getF f (base_s f x s) = Some (unreg x)).
+  { unfold base_s. change (getF f (setF f (unreg x) s) = Some (unreg x)). rewrite getF_setF, N.eqb_refl. reflexivity. }
+  pose proof (d_cap _ _ HD) as Hcap.
+  destruct (is_success (f_state x)) eqn:Es; cbn [b2n] in C1, C2, C3, C4.
+  - assert (Ew : is_waiting (f_state x) = false) by (destruct (f_state x); try discriminate; reflexivity).
+    rewrite ?Ew in C3. cbn [b2n] in C3.
+    change (fx (base_s f x s)) with (fx s).
+    destruct (fx12 (fx s)) eqn:E12.
+    + destruct (is_full (base_s f x s)) eqn:Ef.
+      * assert (Efull : nq s = ncap s).
+        { apply (is_full_spec s Hcap). exact Ef. }
+        split; [|apply Hpost0; auto; reflexivity].
+        split; [exact HDb|]. split; [exact HWb|]. apply InvK_intro.
+        -- exact K1.
+        -- intros T1 T2. specialize (K2 T1 T2). change (nq (base_s f x s)) with (nq s).
+           clear - K2 C1 C2. lia.
+        -- intros _. right. change (nq (base_s f x s)) with (nq s). change (ncap (base_s f x s)) with (ncap s).
+           clear - Efull. lia.
+      * destruct (wake_one_send_eq (base_s f x s) HWb) as [[E Hn]|[f1 [w1 [y [Hi [Hy [Hw E]]]]]]]; rewrite E.
+        -- split; [|apply Hpost0; auto; reflexivity].
+           split; [exact HDb|]. split; [exact HWb|]. apply InvK_intro.
+           ++ exact K1.
+           ++ intros T1 T2. specialize (K2 T1 T2). change (nq (base_s f x s)) with (nq s).
+              clear - K2 C1 C2. lia.
+           ++ intros _. left. apply no_waiting_s; assumption.
+        -- destruct (woken_s_core false [] f1 w1 y (base_s f x s) HDb HWb Hi Hy Hw) as (HD2 & HW2 & Hry & Hrg).
+           destruct (cnt4 f1 y (set_state Success y) (base_s f x s) (woken_s false f1 w1 y (base_s f x s)) (w_fnd _ HWb) Hy eq_refl) as (D1 & D2 & D3 & D4).
+           assert (Esy : is_success (f_state y) = false) by (destruct (f_state y); try discriminate; reflexivity).
+           ev_preds D1. ev_preds D2. ev_preds D3. ev_preds D4.
+           split.
+           ++ apply InvH_mark_bad. split; [exact HD2|]. split; [exact HW2|]. apply InvK_intro.
+              ** exact K1.
+              ** intros T1 T2. specialize (K2 T1 T2).
+                 change (nq (woken_s false f1 w1 y (base_s f x s))) with (nq s).
+                 clear - K2 C1 C2 D1 D2. lia.
+              ** intros T. specialize (K3 T).
+                 change (nq (woken_s false f1 w1 y (base_s f x s))) with (nq s). change (ncap (woken_s false f1 w1 y (base_s f x s))) with (ncap s).
+                 clear - K3 C3 C4 D3 D4. lia.
+           ++ assert (Hne : f1 <> f).
+              { intros ->. rewrite Gb in Hy. inversion Hy; subst y. rewrite U6 in *. discriminate. }
+              apply Hpost0; try (unfold mark_bad; destruct (negb (f_live y)); reflexivity).
+              rewrite getF_mark_bad. unfold woken_s.
+              change (getF f (setF f1 (set_state Success y) (base_s f x s)) = Some (unreg x)).
+              rewrite getF_setF. destruct (N.eqb_spec f f1); [congruence | exact Gb].
+    + unfold taint.
+      split; [|apply Hpost0; auto; reflexivity].
+      split; [apply InvD_with_tn; exact HDb|]. split.
+      * apply InvW_with_tn; [exact HWb | apply tle_set_t12 |].
+        apply ok_set_t12; [apply (w_taint s HW) | exact E12].
+      * apply InvK_intro.
+        -- exact K1.
+        -- cbn. discriminate.
+        -- cbn. discriminate.
+  - split; [|apply Hpost0; auto; reflexivity].
+    split; [exact HDb|]. split; [exact HWb|]. apply InvK_intro.
+    + exact K1.
+    + intros T1 T2. specialize (K2 T1 T2). change (nq (base_s f x s)) with (nq s).
+      clear - K2 C1 C2. lia.
+    + intros T. specialize (K3 T). change (nq (base_s f x s)) with (nq s). change (ncap (base_s f x s)) with (ncap s).
+      clear - K3 C3 C4. destruct (is_waiting (f_state x)); cbn [b2n] in *; lia.
+Qed.
+
+Lemma cancel_reg_inv f x s :
+  Inv s -> getF f s = Some x ->
+  Inv (cancel_reg f x s) /\ cancel_post f x s (cancel_reg f x s).
+Proof.
+  intros H Hg. destruct (f_reg x) eqn:Hreg.
+  - destruct (f_recv x) eqn:Hrecv; [apply cancel_reg_recv | apply cancel_reg_send]; assumption.
+  - unfold cancel_reg. rewrite Hreg. split; [exact H|]. unfold cancel_post.
+    split; [exists x; repeat split; auto|]. repeat split.
+Qed.
+
+(** ** record-only updates of an unregistered future *)
+Lemma preds_unreg x : f_reg x = false -> pw_r x = false /\ pi_r x = false /\ pw_s x = false /\ pi_s x = false.
+Proof.
+  intros H. unfold pw_r, pi_r, pw_s, pi_s. rewrite H. rewrite !andb_false_r. repeat split.
+Qed.
+
+Lemma rec_upd_W f x x' s :
+  InvW s -> getF f s = Some x ->
+  f_recv x' = f_recv x -> f_h x' = f_h x -> f_state x' = f_state x -> (f_live x' = true -> f_live x = true) ->
+  f_reg x = false -> f_reg x' = false ->
+  (f_recv x' = false -> f_done x' = false -> f_item x' <> None) ->
+  InvW (setF f x' s).
+Proof.
+  intros HW Hg Er Eh Es El Hr Hr' Hit.
+  assert (Heq : core_eq (with_arq (arq s) (with_asq (asq s) (setF f x' s))) (setF f x' s)) by core_eq_refl.
+  apply (InvW_ext _ _ Heq). apply InvW_upd with x.
+  - exact HW.
+  - exact Hg.
+  - exact Er.
+  - exact Eh.
+  - exact El.
+  - rewrite Hr'. discriminate.
+  - apply (w_arq_nd s HW).
+  - apply (w_asq_nd s HW).
+  - intros f1 w1 Hi. destruct (N.eq_dec f1 f) as [->|Hne]; [|left; auto].
+    right. split; [reflexivity|]. destruct (w_arq_k s HW f w1 Hi) as [z [Hz Hrz]]. congruence.
+  - intros f1 w1 Hi. left. split; [|exact Hi]. intros ->.
+    destruct (w_asq_k s HW f w1 Hi) as [z [Hz [_ Hrz]]]. congruence.
+  - auto.
+  - auto.
+  - rewrite Hr'. discriminate.
+  - intros Hsc Hi. destruct (akeys_In _ _ Hi) as [w1 Hi1]. rewrite Es. apply (w_sc0 s HW Hsc f w1 x Hi1 Hg).
+  - intros Hrc Hi. destruct (akeys_In _ _ Hi) as [w1 Hi1]. rewrite Es. apply (w_rc0 s HW Hrc f w1 x Hi1 Hg).
+  - intros T Hi. destruct (akeys_In _ _ Hi) as [w1 Hi1].
+    destruct (w_arq_reg s HW T f w1 Hi1) as [z [Hz Hrz]]. congruence.
+  - exact Hit.
+Qed.
+
+Lemma rec_upd_cnt (P : fut -> bool) f x x' s :
+  InvW s -> getF f s = Some x -> P x = false -> P x' = false -> cnt P (fs (setF f x' s)) = cnt P (fs s).
+Proof.
+  intros HW Hg E1 E2. pose proof (cnt_setF P f x x' s (w_fnd s HW) Hg) as C. rewrite E1, E2 in C. unfold b2n in C. lia.
+Qed.
+
+Lemma rec_upd_K f x x' s :
+  InvW s -> InvK s -> getF f s = Some x -> f_reg x = false -> f_reg x' = false -> InvK (setF f x' s).
+Proof.
+  intros HW [K1 K2 K3] Hg Hr Hr'.
+  destruct (preds_unreg x Hr) as (A1&A2&A3&A4). destruct (preds_unreg x' Hr') as (B1&B2&B3&B4).
+  apply InvK_intro.
+  - exact K1.
+  - intros T1 T2. specialize (K2 T1 T2). change (nq (setF f x' s)) with (nq s).
+    rewrite (rec_upd_cnt pw_r f x x' s HW Hg A1 B1), (rec_upd_cnt pi_r f x x' s HW Hg A2 B2). exact K2.
+  - intros T. specialize (K3 T). change (nq (setF f x' s)) with (nq s). change (ncap (setF f x' s)) with (ncap s).
+    rewrite (rec_upd_cnt pw_s f x x' s HW Hg A3 B3), (rec_upd_cnt pi_s f x x' s HW Hg A4 B4). exact K3.
+Qed.
+
+Lemma InvD_setF hand f x x' s :
+  InvD hand s -> NoDup (akeys (fs s)) -> getF f s = Some x -> (forall v, cellp v x' = cellp v x) ->
+  InvD hand (setF f x' s).
+Proof.
+  intros [A B C] Hnd Hg Hc. constructor; [exact A | exact B |].
+  intros v. specialize (C v). unfold tot in *. rewrite (cells_setF_same f x x' s v Hnd Hg (Hc v)). exact C.
+Qed.
+
+(* the cell of f loses its item (taken into the hand, or destroyed with the future) *)
+Lemma InvD_cell_out f x x' v s :
+  InvD [] s -> NoDup (akeys (fs s)) -> getF f s = Some x -> f_live x = true -> f_item x = Some v ->
+  (forall u, cellp u x' = false) ->
+  InvD [v] (setF f x' s).
+Proof.
+  intros [A B C] Hnd Hg Hl Hi Hc. constructor; [exact A | exact B |].
+  intros u. specialize (C u). unfold tot in *.
+  pose proof (cnt_setF (cellp u) f x x' s Hnd Hg) as E. fold (cells (setF f x' s) u) in E. fold (cells s u) in E.
+  rewrite Hc in E. unfold cellp in E at 1. rewrite Hl, Hi in E. cbn [andb occ b2n] in *.
+  change (next (setF f x' s)) with (next s). change (recvd (setF f x' s)) with (recvd s).
+  change (q (setF f x' s)) with (q s). change (back (setF f x' s)) with (back s). change (dropped (setF f x' s)) with (dropped s).
+  destruct (u =? v); cbn [b2n] in E; lia.
+Qed.
+
+Lemma step_dropf s f : Inv s -> Inv (fst (step s (DropF f))).
+Proof.
+  intros H0. apply Inv_reset in H0. unfold step. fold (reset s). set (s1 := reset s) in *. clearbody s1.
+  destruct (getF f s1) as [x|] eqn:Hg; [|exact H0].
+  destruct (f_live x) eqn:Hl; cbn [negb]; [|exact H0].
+  destruct (cancel_reg_inv f x s1 H0 Hg) as [H2 [[x2 (G2 & R2 & L2 & I2 & Rv2 & Hh2 & D2)] _]].
+  set (s2 := cancel_reg f x s1) in *. rewrite G2. cbn [ret fst].
+  destruct H2 as [HD2 [HW2 HK2]].
+  assert (HW3 : InvW (setF f (set_dead x2) s2)).
+  { apply rec_upd_W with x2; try assumption; try reflexivity.
+    - cbn. discriminate.
+    - cbn. apply (w_item s2 HW2 f x2 G2). }
+  assert (HK3 : InvK (setF f (set_dead x2) s2)) by (apply rec_upd_K with x2; assumption).
+  destruct (f_item x) as [v|] eqn:Ei.
+  - apply InvH_destroy. split; [|split; assumption].
+    apply InvD_cell_out with x2; try assumption.
+    + apply (w_fnd s2 HW2).
+    + congruence.
+    + intros u. reflexivity.
+  - split; [|split; assumption].
+    apply InvD_setF with x2; try assumption; [apply (w_fnd s2 HW2)|].
+    intros u. unfold cellp. cbn [f_live f_item set_dead]. rewrite I2. rewrite !andb_false_r. reflexivity.
 Qed.
